@@ -125,6 +125,33 @@ theorem rt_is_spec_tree_partial (cfg : X2WCfg) (t : Tree) (bs : Bytes) (lang : L
   rw [hp, hres, hev]
   rfl
 
+/-- **Round trip = the specification's reading of what the encoder wrote — all 29 languages, typed
+    content included**, under the four source hypotheses of `C06.enc_is_ser_wf` (each a recorded
+    finding: `cdata-in-typed-element`, `invalid-datetime-attribute-accepted`, D5 "text that is not
+    base64 becomes an empty OPAQUE", DRMREL `ds:KeyValue` text behind a child element). -/
+theorem rt_is_spec_tree (cfg : X2WCfg) (t : Tree) (bs : Bytes) (lang : Lang) (r : Node)
+    (hlang : t.lang = some lang) (hroot : t.root = some r)
+    (hl : langOk lang = true) (htl : typedLangOk lang = true) (hover : treeOver lang t = true)
+    (h : treeToWbxml cfg t = .ok bs)
+    (hcdata : noCdataInTyped lang false r = true) (hdt : validDatetimeAttrs lang r = true)
+    (hb64 : b64TextDecodes (dcfgOf cfg lang) none r = true)
+    (hkv : keyValueTextFirst (dcfgOf cfg lang) none true r = true) :
+    ∃ d : Doc, bs = Spec.ser d ∧
+      ∀ (main : List Lang) (f forced metaCs : Nat),
+        headerLang (pcfgOf main forced metaCs) d.hdr = some lang →
+        (headerCharset (pcfgOf main forced metaCs) d.hdr = 3 ∨ headerCharset (pcfgOf main forced metaCs) d.hdr = 106) →
+        cfg.version < 256 → bs.length < 4294967296 →
+        treeOfWbxml main (f + 1) forced metaCs bs =
+          treeOfEvents main (embOf main f) (Spec.events (pcfgOf main forced metaCs) d) := by
+  obtain ⟨d, hs, hdec⟩ := C06.decodes_by_spec cfg t bs lang r hlang hroot hl htl hover h hcdata hdt hb64 hkv
+  refine ⟨d, hs, ?_⟩
+  intro main f forced metaCs h1 h2 h3 h4
+  obtain ⟨hres, hev⟩ := hdec (pcfgOf main forced metaCs) h1 h2 (charsets_ok main forced metaCs _ h2) h3 h4
+  rw [treeOfWbxml]
+  have hp : parse { main := main, langForced := forced, metaCharset := metaCs } bs = parse (pcfgOf main forced metaCs) bs := rfl
+  rw [hp, hres, hev]
+  rfl
+
 /-- **Round trip at the level of parser events** (`_partial`: plain trees of plain languages, see
     `C06.denotes_source_partial`): what the library's own parser — as `wbxml_tree_from_wbxml` runs
     it — delivers on the encoder's output has exactly the XML-level view of the source tree:
